@@ -4,7 +4,6 @@ import math
 
 import torch
 from torch.autograd import Function
-from torch.autograd.function import once_differentiable
 from torch.distributions import Normal
 
 
@@ -99,7 +98,6 @@ class LogNormalCDF(Function):
         return log_phi_z
 
     @staticmethod
-    @once_differentiable
     def backward(ctx, grad_output):
         z, log_phi_z = ctx.saved_tensors
         log_phi_z_grad = torch.zeros_like(z)
